@@ -354,6 +354,11 @@ def OpOK (e : Env) : Op → Prop
       (kindOf e.r c = some .blob ∨ kindOf e.r c = some .tree)
   | .commit c t => kindOf e.r c = some .commit ∧ commitTreeOf e.r c = some t
 
+/-- `OpOK` is decidable for a concrete repository and name table: the correspondence driver evaluates
+    it on every operation of every generated case (cases tagged `thm` meet the theorem's hypothesis) -/
+instance (e : Env) (op : Op) : Decidable (OpOK e op) := by
+  cases op <;> unfold OpOK <;> infer_instance
+
 theorem step_inv (ok : EnvOK e) {st st' : State} (inv : StInv e st) (op : Op) (hop : OpOK e op)
     (h : step st op = .ok st') : StInv e st' := by
   cases op with
